@@ -2,6 +2,7 @@ package mrogen
 
 import (
 	"fmt"
+	"strings"
 
 	"pgregory.net/rapid"
 
@@ -88,7 +89,7 @@ type pgen struct {
 	// forceFlag: the next call gets this disabling condition (chain mode).
 	forceFlag *Ref
 	chain     bool
-	isTop  bool
+	isTop     bool
 	// inProducer: generating the bindings of an inserted producer call.
 	inProducer bool
 	// curCallee: the callee of the call whose bindings are being generated.
@@ -107,11 +108,11 @@ type pgen struct {
 	// palette: element types most stage parameters are built from.
 	palette   []Ty
 	noPalette bool
-	hasMap map[string]bool // pipelines containing a map call (transitively)
-	t    *rapid.T
-	cfg  *ProgCfg
-	u    *Universe
-	prog *Program
+	hasMap    map[string]bool // pipelines containing a map call (transitively)
+	t         *rapid.T
+	cfg       *ProgCfg
+	u         *Universe
+	prog      *Program
 	// per-pipeline state
 	pl      *Pipeline
 	sources []source
@@ -480,9 +481,22 @@ func (g *pgen) genStage(i int) *Stage {
 			r := &Resources{}
 			// (negative requests are "adaptive"; values between -1 and 0,
 			// and whole and fractional values on either side of zero)
-			r.MemGB = rapid.SampledFrom([]string{"", "1", "2", "0.05", "1.5", "-4", "3e0", "0.125", "-0.5", "-0.25", "-1.5", "-1", "0"}).Draw(t, "mem")
-			r.Threads = rapid.SampledFrom([]string{"", "1", "2", "0.5", "0.01", "-1", "1.5", "-0.5", "0"}).Draw(t, "threads")
-			r.VMemGB = rapid.SampledFrom([]string{"", "", "8", "16.5", "-0.75", "-2", "0.5"}).Draw(t, "vmem")
+			// (half of the time a written-out decimal such as 1.1 or 12.07:
+			// most of them have no exact binary form)
+			dec := func(label string, pool []string) string {
+				if rapid.Bool().Draw(t, label+"Pool") {
+					return rapid.SampledFrom(pool).Draw(t, label)
+				}
+				n := rapid.IntRange(1, 3).Draw(t, label+"Digits")
+				sign := ""
+				if rapid.IntRange(0, 4).Draw(t, label+"Neg") == 0 {
+					sign = "-"
+				}
+				return fmt.Sprintf("%s%d.%0*d", sign, rapid.IntRange(0, 64).Draw(t, label+"Whole"), n, rapid.IntRange(0, []int{9, 99, 999}[n-1]).Draw(t, label+"Frac"))
+			}
+			r.MemGB = dec("mem", []string{"", "1", "2", "0.05", "1.5", "-4", "3e0", "0.125", "-0.5", "-0.25", "-1.5", "-1", "0"})
+			r.Threads = dec("threads", []string{"", "1", "2", "0.5", "0.01", "-1", "1.5", "-0.5", "0"})
+			r.VMemGB = dec("vmem", []string{"", "", "8", "16.5", "-0.75", "-2", "0.5"})
 			r.Special = rapid.SampledFrom([]string{"", "", "highmem", "a b", "q\"x", "esc\\n"}).Draw(t, "special")
 			r.Volatile = rapid.SampledFrom([]string{"", "", "strict", "false"}).Draw(t, "volatile")
 			if *r != (Resources{}) {
@@ -637,11 +651,20 @@ func projectType(base Ty, field Ty) (Ty, bool) {
 // candidates lists every source (with projections up to depth 2) whose
 // type can be bound to dst.
 func (g *pgen) candidates(dst Ty, exclude map[string]bool) []source {
+	return g.candidatesWhere(func(s source) bool { return g.assignable(dst, s.t) }, exclude)
+}
+
+// candidatesAll: every source with its projections, whatever the type.
+func (g *pgen) candidatesAll() []source {
+	return g.candidatesWhere(func(source) bool { return true }, nil)
+}
+
+func (g *pgen) candidatesWhere(want func(source) bool, exclude map[string]bool) []source {
 	var out []source
 	var visit func(s source, depth int)
 	visit = func(s source, depth int) {
 		if !exclude[s.call] || s.call == "" {
-			if g.assignable(dst, s.t) {
+			if want(s) {
 				out = append(out, s)
 			}
 		}
@@ -661,7 +684,7 @@ func (g *pgen) candidates(dst Ty, exclude map[string]bool) []source {
 			if s.fromMapped && s.t.Map > 0 && g.excluded("projection-through-map-of-mapped-output") {
 				continue
 			}
-			ns := source{fromMapped: s.fromMapped,ref: Ref{Call: s.ref.Call, Out: s.ref.Out, Path: append(append([]string{}, s.ref.Path...), f.Name)},
+			ns := source{fromMapped: s.fromMapped, ref: Ref{Call: s.ref.Call, Out: s.ref.Out, Path: append(append([]string{}, s.ref.Path...), f.Name)},
 				t: pt, call: s.call, maybeDisabled: s.maybeDisabled}
 			if s.t.Arr > 0 || s.t.Map > 0 {
 				ns.shape = s.shape
@@ -720,6 +743,17 @@ func (g *pgen) genExprFor(dst Ty, depth int) Expr {
 		}
 		if len(merged) > 0 && rapid.Bool().Draw(t, "preferMerged") {
 			cands = merged
+		}
+		// ... and projections through two struct levels (X.out.inner.x):
+		// they need a struct in a struct to exist at all
+		var deep []source
+		for _, s := range cands {
+			if len(s.ref.Path) >= 2 {
+				deep = append(deep, s)
+			}
+		}
+		if len(deep) > 0 && rapid.IntRange(0, 2).Draw(t, "preferDeepProjection") > 0 {
+			cands = deep
 		}
 		return cands[rapid.IntRange(0, len(cands)-1).Draw(t, "cand")].ref
 	}
@@ -1230,6 +1264,17 @@ func (g *pgen) genCallBindings(c *Call) {
 	}
 }
 
+// projectsThroughArrayAndMap: does the referenced value pick a member out of
+// structs that sit in an array and in a typed map at once?
+func (g *pgen) projectsThroughArrayAndMap(r Ref) bool {
+	for _, s := range g.candidatesAll() {
+		if s.ref.Call == r.Call && s.ref.Out == r.Out && strings.Join(s.ref.Path, ".") == strings.Join(r.Path, ".") {
+			return s.t.Arr > 0 && s.t.Map > 0
+		}
+	}
+	return true // unknown: stay on the safe side
+}
+
 // badSplitFeed: would binding e to an input the callee maps over create a
 // shape excluded because of a known finding?
 func (g *pgen) badSplitFeed(e Expr) bool {
@@ -1240,7 +1285,7 @@ func (g *pgen) badSplitFeed(e Expr) bool {
 	if !ok || r.Call == "" {
 		return false
 	}
-	if len(r.Path) > 0 && g.excluded("split-over-projected-output") {
+	if len(r.Path) > 0 && g.projectsThroughArrayAndMap(r) && g.excluded("split-over-projected-output") {
 		return true
 	}
 	if pc := g.pl.Call(r.Call); pc != nil && pc.Disabled != nil && g.excluded("split-over-disabled-call-output") {
@@ -1555,6 +1600,79 @@ func (g *pgen) holdsTypedMap(ty Ty, depth int) bool {
 // an output of exactly type ty to the current pipeline and returns that
 // output as a source.
 func (g *pgen) insertProducer(ty Ty) (source, bool) {
+	// one time in three, when the universe allows it: a stage that returns a
+	// collection of structs, split over through a member projection
+	// (split P.items.count) - the member values are found at run time by
+	// walking the collection
+	if rapid.IntRange(0, 2).Draw(g.t, "projectedProducer") == 0 {
+		for _, st := range g.prog.Stages {
+			if st.Name == "PF0" {
+				continue
+			}
+			for _, o := range st.Outs {
+				sd := g.u.Struct(o.T.Base)
+				if sd == nil || (o.T.Arr > 0) == (o.T.Map > 0) {
+					continue // a struct in exactly one kind of collection
+				}
+				for _, f := range sd.Fields {
+					if pt, ok := projectType(Ty{Arr: o.T.Arr, Map: o.T.Map}, f.T); !ok || pt != ty {
+						continue
+					}
+					pc := &Call{Id: fmt.Sprintf("%s_P%d", st.Name, len(g.pl.Calls)), Callee: st.Name}
+					g.inProducer = true
+					saveCfg, saveReserved := *g.cfg, g.reserved
+					g.cfg.MapCalls, g.cfg.Disabled = false, false
+					g.genCallBindings(pc)
+					*g.cfg = saveCfg
+					g.reserved = saveReserved
+					g.inProducer = false
+					g.pl.Calls = append(g.pl.Calls, pc)
+					for _, s := range g.candidatesAll() {
+						if s.call == pc.Id && s.ref.Out == o.Name && len(s.ref.Path) == 1 && s.ref.Path[0] == f.Name {
+							return s, true
+						}
+					}
+					return source{}, false
+				}
+			}
+		}
+		// no such stage yet: declare one, if some struct has a member of
+		// the element type
+		if el, ok := ty.Elem(); ok && !g.cfg.VDR {
+			for _, sd := range g.u.Structs {
+				for _, f := range sd.Fields {
+					if f.T != el || sd.WiderOf != "" {
+						continue
+					}
+					ot := Ty{Base: sd.Name, Arr: 1}
+					if ty.IsTypedMap() {
+						ot = Ty{Base: sd.Name, Map: 1}
+					}
+					if pt, ok := projectType(Ty{Arr: ot.Arr, Map: ot.Map}, f.T); !ok || pt != ty {
+						continue
+					}
+					name := fmt.Sprintf("STQ%d", len(g.prog.Stages))
+					g.prog.Stages = append(g.prog.Stages, &Stage{Name: name, SrcLang: "comp", SrcPath: "stagebin " + name,
+						Ins: []Param{{Name: "p", T: Ty{Base: "int"}}}, Outs: []Param{{Name: "items", T: ot}}})
+					pc := &Call{Id: fmt.Sprintf("%s_P%d", name, len(g.pl.Calls)), Callee: name}
+					g.inProducer = true
+					saveCfg, saveReserved := *g.cfg, g.reserved
+					g.cfg.MapCalls, g.cfg.Disabled = false, false
+					g.genCallBindings(pc)
+					*g.cfg = saveCfg
+					g.reserved = saveReserved
+					g.inProducer = false
+					g.pl.Calls = append(g.pl.Calls, pc)
+					for _, s := range g.candidatesAll() {
+						if s.call == pc.Id && s.ref.Out == "items" && len(s.ref.Path) == 1 && s.ref.Path[0] == f.Name {
+							return s, true
+						}
+					}
+					return source{}, false
+				}
+			}
+		}
+	}
 	for _, st := range g.prog.Stages {
 		if st.Name == "PF0" {
 			continue
@@ -1676,7 +1794,9 @@ func (g *pgen) genMapSources(c *Call, ins []Param) (shape, kind string, idx map[
 		if s.shape == "" || !isColl(s) {
 			return false
 		}
-		if s.call != "" && len(s.ref.Path) > 0 && g.excluded("split-over-projected-output") {
+		// (known finding: a projection through an array AND a typed map of
+		// structs is not forked; through one kind of collection it is)
+		if s.call != "" && len(s.ref.Path) > 0 && s.t.Arr > 0 && s.t.Map > 0 && g.excluded("split-over-projected-output") {
 			return false
 		}
 		if s.maybeDisabled && g.excluded("split-over-disabled-call-output") {
